@@ -83,7 +83,7 @@ theorem view_defined (H : Heap) (hi : Inv H) (hdi : DInv H) (c : Nat) (hc : c < 
           | pfx p => cases h1
           | auth k hv => simp only [applyReq] at h1; split at h1 <;> cases h1
           | trace t => simp only [applyReq] at h1; split at h1 <;> cases h1
-          | unwrap _ | count | compact | nullify | addParam _ _ | wrapData _ => cases h1
+          | unwrap _ | count | compact | nullify | addParam _ _ | wrapData _ | nested _ _ _ _ => cases h1
           | boom b => cases b <;> cases h1
     exact this _ _ hr
 
@@ -415,6 +415,49 @@ theorem request_response (v : Conn × Str × Bool × List Adapter) (hd : Option 
   · cases h
   · cases h; rfl
 
+/-- **Nested requests do not disturb the outer one.** A chain may contain adapters that themselves
+send requests (through the same, a sibling or the parent connection) while the outer request is being
+prepared or its response processed. Those are complete requests on the same world (`ReqEffect`:
+connections, adapter lists, caller objects untouched; only id counters and fresh header objects
+move). The outer request is the plain `requestFlat` on the world they leave: same view of `c`
+(`viewCore`), hence — `request_uses_chain`, `request_response` — url, headers, body and the response
+processors are those of the outer chain, each once; the adapter list is an argument of `do_request`,
+not state. The only thing a nested request can add is its own exception in place of the returned value. -/
+theorem nested_outer_unaffected (H H' : Heap) (c : Nat) (args : Args) (s : Sent)
+    (h : request H c args = (H', .ok s)) :
+    ∃ H1 s0, ReqEffect H H1 ∧ viewCore H1 c = viewCore H c ∧ (requestFlat H1 c args).2 = .ok s0 ∧
+      s.url = s0.url ∧ s.method = s0.method ∧ s.headers = s0.headers ∧ s.body = s0.body ∧ s.genId = s0.genId ∧
+      (s.resp = s0.resp ∨ ∃ e, s.resp = .error e) := by
+  have flat : ∀ {H2 : Heap} {r : Except Err Sent},
+      (match requestFlat H c args with
+        | (H1, .ok s) => (({ H1 with lastSent := 1 } : Heap), (Except.ok s : Except Err Sent))
+        | (H1, .error e) => ({ H1 with lastSent := 0 }, .error e)) = (H2, r) → r = .ok s →
+      ∃ H1 s0, ReqEffect H H1 ∧ viewCore H1 c = viewCore H c ∧ (requestFlat H1 c args).2 = .ok s0 ∧
+        s.url = s0.url ∧ s.method = s0.method ∧ s.headers = s0.headers ∧ s.body = s0.body ∧ s.genId = s0.genId ∧
+        (s.resp = s0.resp ∨ ∃ e, s.resp = .error e) := by
+    intro H2 r hm hr
+    split at hm
+    · rename_i H1 s1 heq
+      cases hm; cases hr
+      exact ⟨H, s, ReqEffect.refl H, rfl, by rw [heq], rfl, rfl, rfl, rfl, rfl, Or.inl rfl⟩
+    · cases hm; cases hr
+  unfold request at h
+  split at h
+  · rename_i cn impl as hd _ _
+    split at h
+    · exact flat h rfl
+    · split at h
+      · cases h
+      · rename_i H1 pre x heq
+        have hp := firePre_effect { path := args.path, headers := copyHeaders hd } H [] as []
+        rw [heq] at hp
+        split at h
+        · cases h
+        · rename_i H2 s0 heq2
+          refine ⟨H1, s0, hp, viewCore_ofEffect hp c, by rw [heq2], ?_⟩
+          split at h <;> cases h <;> simp
+  · exact flat h rfl
+
 /-- **Exceptions of adapters reach the caller.** If an adapter refuses the request (the loop stops at
 the first exception) the exception is the outcome, nothing is sent and no id is consumed (the only
 trace in the heap is the abandoned header object); if a response processor raises, the request has
@@ -425,11 +468,11 @@ theorem exception_propagates (H : Heap) (c : Nat) (args : Args) (cn : Conn) (imp
     (hh : optDict H args.headers = some hd) (hcd : CallerDict hd) (hp : optParams H args.params = some pd)
     (body : Body) (hbd : optData H args.data = some body) :
     (∀ e, applyAll as ⟨args.path, copyHeaders hd⟩ = .error e →
-        (request H c args).2 = .error e ∧ (request H c args).1.impls = H.impls) ∧
+        (requestFlat H c args).2 = .error e ∧ (requestFlat H c args).1.impls = H.impls) ∧
     (∀ ra e, applyAll as ⟨args.path, copyHeaders hd⟩ = .ok ra →
         respFold as (decodeResp args.raw args.resp) = .error e →
-        ∃ s, (request H c args).2 = .ok s ∧ s.resp = .error e) ∧
-    (Adapter.boom true ∈ as → ∃ e, (request H c args).2 = .error e ∧ (request H c args).1.impls = H.impls) ∧
+        ∃ s, (requestFlat H c args).2 = .ok s ∧ s.resp = .error e) ∧
+    (Adapter.boom true ∈ as → ∃ e, (requestFlat H c args).2 = .error e ∧ (requestFlat H c args).1.impls = H.impls) ∧
     (Adapter.boom true ∉ as → ∀ e, applyAll as ⟨args.path, copyHeaders hd⟩ = .error e → e = .assertion) := by
   obtain ⟨hval, _, hrefused⟩ := request_spec H c args
   have hpure : requestPure H c args = match applyAll as ⟨args.path, copyHeaders hd⟩ with
@@ -439,13 +482,13 @@ theorem exception_propagates (H : Heap) (c : Nat) (args : Args) (cn : Conn) (imp
     simp only [requestPure, hv, hh, hp, hbd]
     cases applyAll as ⟨args.path, copyHeaders hd⟩ <;> rfl
   refine ⟨fun e he => ?_, ?_, ?_, ?_⟩
-  · have h2 : (request H c args).2 = .error e := by rw [hval, hpure, he]
+  · have h2 : (requestFlat H c args).2 = .error e := by rw [hval, hpure, he]
     exact ⟨h2, hrefused ⟨e, h2⟩⟩
   · intro ra e ha hr
     exact ⟨_, by rw [hval, hpure, ha], by simp [assemble, hr]⟩
   · intro hb
     obtain ⟨e, he⟩ := applyAll_boom as ⟨args.path, copyHeaders hd⟩ hb
-    have h2 : (request H c args).2 = .error e := by rw [hval, hpure, he]
+    have h2 : (requestFlat H c args).2 = .error e := by rw [hval, hpure, he]
     exact ⟨e, h2, hrefused ⟨e, h2⟩⟩
   · intro hb e he
     have : ∀ (as : List Adapter) (ra : RA), TraceOk ra.headers → Adapter.boom true ∉ as →
